@@ -35,7 +35,7 @@ PROP = "C04"
 # error classes -------------------------------------------------------------------------------
 # borrow / lifetime errors that mean "the borrow checker rejected the escape"
 BORROW_CODES = {
-    "E0499", "E0502", "E0503", "E0505", "E0506", "E0515", "E0521", "E0597", "E0716", "E0373",
+    "E0499", "E0500", "E0501", "E0502", "E0503", "E0505", "E0506", "E0515", "E0521", "E0597", "E0716", "E0373",
     "E0713", "E0712", "E0700", "E0310", "E0491",
 }
 BORROW_MSGS = ("lifetime may not live long enough", "borrowed data escapes outside of")
@@ -236,7 +236,8 @@ def _producers():
         P("try_alloc_try_with", "{m}.try_alloc_try_with(|| Ok::<u32, ()>(1)).unwrap().unwrap()", needs=["inherent"], tier=THOROUGH),
         P("alloc_array_into_boxed_slice", "{m}.alloc([1u32, 2]).into_boxed_slice()", tier=THOROUGH),
         P("alloc_slice_split_off", "{m}.alloc_slice_copy(&[1u32, 2, 3]).split_off(1..)", tier=THOROUGH),
-        P("alloc_str_split_at", "{m}.alloc_str(\"ab\").split_at(1)", tier=THOROUGH),
+        P("alloc_slice_split_at", "{m}.alloc_slice_copy(&[1u32, 2]).split_at(1)", tier=THOROUGH),
+        P("alloc_str_split_off", "{m}.alloc_str(\"ab\").split_off(1..)", tier=THOROUGH),
         P("alloc_slice_into_iter", "{m}.alloc_slice_copy(&[1u32, 2]).into_iter()", tier=THOROUGH),
         P("alloc_dyn_unsize", "{{ let b: BumpBox<dyn std::fmt::Debug> = bump_scope::unsize_bump_box!({m}.alloc(1u32)); b }}", tier=THOROUGH),
         P("bumpvec_without_dealloc", "{{ let mut v = BumpVec::new_in(WithoutDealloc({sref})); v.push(1u32); v.into_slice() }}", tier=THOROUGH),
@@ -337,7 +338,7 @@ HANDLES = [
            desc="&mut BumpScope inside bump.scoped_aligned::<8, _>(|scope| ..)"),
     Handle("claim_scoped", "closure", owner_setup=["let mut bump: Bump = Bump::new();", "let mut claim = bump.claim();"],
            owner="claim", owner_caps=[], open="claim.scoped(|scope| {",
-           desc="inner scope of a claim guard: bump.claim().scoped(|scope| ..)  (route r9)"),
+           desc="the inner scope of a claim guard, bump.claim().scoped(|scope| ..)"),
     Handle("scoped_dyn", "closure", open="bump.scoped(|scope| {", inner=DYN_REBIND, m="scope", sref="&*scope", mref="&mut *scope",
            caps=[], desc="&mut dyn MutBumpAllocatorCoreScope made from the scoped closure's BumpScope"),
     Handle("scope_param_scoped", "closure", open="bump.scoped(|scope| {", desc="scoped on a by-value BumpScope parameter", **SCOPE_PARAM),
@@ -813,9 +814,12 @@ def fn_text(name, case, lines, indent="    "):
     return out
 
 
+RUN_DIR = [WORK]  # work/<tier> for check runs
+
+
 def render_lib_crate(name, items):
-    """items: list of (case, 'fail'|'ctrl').  Writes work/<name>/ and returns index: file -> [(start, end, case)]"""
-    cdir = os.path.join(WORK, name)
+    """items: list of (case, 'fail'|'ctrl').  Writes work/<tier>/<name>/ and returns index: file -> [(start, end, case)]"""
+    cdir = os.path.join(RUN_DIR[0], name)
     shutil.rmtree(cdir, ignore_errors=True)
     write_cargo_files(cdir, name)
     index = {}
@@ -876,7 +880,7 @@ class Rustc:
         self.deps = None
         self.invocations = 0
         self.lock = threading.Lock()
-        self.env = dict(os.environ, CARGO_TARGET_DIR=TARGET)
+        self.env = dict(os.environ, CARGO_TARGET_DIR=TARGET, CARGO_PROFILE_DEV_DEBUG="0")
 
     def ensure_dep(self):
         """build bump-scope ONCE (cargo, offline, own target dir); every program is then decided by one direct
@@ -901,7 +905,7 @@ class Rustc:
         self.rlib, self.deps = rlib, os.path.dirname(rlib)
 
     def run(self, cwd, src, crate_type, emit, name):
-        out = os.path.join(WORK, "out", name)
+        out = os.path.join(RUN_DIR[0], "out", name)
         os.makedirs(out, exist_ok=True)
         ext = {"metadata": "rmeta", "obj": "o"}[emit]
         cmd = ["rustc", "--edition", "2024", "--crate-type", crate_type, "--crate-name", re.sub(r"\W", "_", name),
@@ -1003,7 +1007,7 @@ def decide_controls(rep, name, index, futs):
 
 
 def run_const(rc, name, text):
-    cdir = os.path.join(WORK, "const", name)
+    cdir = os.path.join(RUN_DIR[0], "const", name)
     write_file(os.path.join(cdir, "main.rs"), text)
     return rc.run(cdir, "main.rs", "bin", "obj", "const_" + name)
 
@@ -1079,6 +1083,7 @@ def cmd_check(args):
     t0 = time.time()
     tier = args.tier
     jobs = args.jobs or (os.cpu_count() or 4)
+    RUN_DIR[0] = os.path.join(WORK, tier)
     rc, rep = Rustc(), Report()
     cases = all_cases(tier)
     rc.ensure_dep()
@@ -1087,7 +1092,7 @@ def cmd_check(args):
     cfail = [c for c in cases if c.kind == "const"]
     lib_ctrl = [c for c in cases if c.kind in ("borrowck", "trait", "control")]
     const_ctrl = [c for c in cases if c.kind in ("const", "constctl")]
-    shutil.rmtree(os.path.join(WORK, "const"), ignore_errors=True)
+    shutil.rmtree(os.path.join(RUN_DIR[0], "const"), ignore_errors=True)
     with concurrent.futures.ThreadPoolExecutor(jobs) as ex:
         # biggest jobs first
         ci, cf = compile_lib_crate(rc, ex, "controls", [(c, "ctrl") for c in lib_ctrl])
@@ -1101,6 +1106,13 @@ def cmd_check(args):
     if rep.machinery:
         for m in rep.machinery[:40]:
             print("MACHINERY " + m, file=sys.stderr)
+        summary = {}
+        for m in rep.machinery:
+            k = re.sub(r" at src/.*", "", m.splitlines()[0])[:160]
+            k = re.sub(r"`[^`]*`", "`_`", k)
+            summary[k] = summary.get(k, 0) + 1
+        for k, n in sorted(summary.items()):
+            print("MACHINERY-SUMMARY %5d x %s" % (n, k), file=sys.stderr)
         print("MACHINERY %d problem(s) in the corpus itself; no verdict" % len(rep.machinery), file=sys.stderr)
         return 2
     for v in rep.viols:
@@ -1164,6 +1176,7 @@ def cmd_replay(args):
     rc = Rustc()
     rc.ensure_dep()
     rdir = os.path.join(WORK, "replay", re.sub(r"\W", "_", c.cid))
+    RUN_DIR[0] = rdir
     shutil.rmtree(rdir, ignore_errors=True)
     const = c.kind in ("const", "constctl")
     in_class = {"borrowck": is_borrow_err, "trait": is_trait_err, "const": is_const_err}.get(c.kind)
